@@ -2,6 +2,7 @@ package main
 
 import (
 	"fmt"
+	"regexp"
 	"go/constant"
 	"go/token"
 	"go/types"
@@ -124,6 +125,9 @@ type FnTrans struct {
 	ghostDone map[*ssa.Return]bool
 	earlyRes map[ssa.Value]string
 	compT map[string]types.Type
+	gaddr map[string]string
+	mayHavePublished bool
+	tfBound string
 }
 
 type deferRec struct {
@@ -458,7 +462,12 @@ func (t *FnTrans) set(comp, term string) {
 	t.cur.H[comp] = term
 }
 
+var reUSort = regexp.MustCompile(`U_[A-Za-z0-9]+`)
+
 func (t *FnTrans) comp(name, sort string) string {
+	for _, u := range reUSort.FindAllString(sort, -1) {
+		t.usort(u[2:])
+	}
 	if s, ok := t.compSort[name]; ok {
 		if s != sort {
 			t.fail("component %s used at sorts %s and %s", name, s, sort)
@@ -592,12 +601,24 @@ func (t *FnTrans) typedFresh(comp, term string) {
 		return
 	}
 	s := t.compSort[comp]
+	bound := q("$alloc@0")
+	if t.tfBound != "" {
+		bound = t.tfBound
+	}
 	body := func(x string) string {
 		if ii, ok := intInfoOf(T); ok {
 			return ii.inRange(x)
 		}
-		if _, ok := T.Underlying().(*types.Slice); ok {
-			return app("wf-slice", x)
+		switch T.Underlying().(type) {
+		case *types.Slice:
+			return and(app("wf-slice", x), app("<", app("s.base", x), bound))
+		case *types.Pointer, *types.Map, *types.Chan, *types.Signature:
+			// closed heap: stored references denote allocated objects
+			return and(app("<=", "0", x), app("<", x, bound))
+		case *types.Interface:
+			if _, isTP := T.(*types.TypeParam); !isTP {
+				return app("<", x, bound)
+			}
 		}
 		return ""
 	}
@@ -622,7 +643,11 @@ func (t *FnTrans) typedFresh(comp, term string) {
 // freshVersion declares a new unconstrained version of a component.
 func (t *FnTrans) freshVersion(comp, hint string) string {
 	n := t.newConst(comp+hint, t.compSort[comp])
+	if a, ok := t.cur.H["$alloc"]; ok && comp != "$alloc" {
+		t.tfBound = a
+	}
 	t.typedFresh(comp, n)
+	t.tfBound = ""
 	return n
 }
 
@@ -675,9 +700,9 @@ func (t *FnTrans) val(v ssa.Value) Val {
 	case *ssa.Const:
 		return t.constVal(c)
 	case *ssa.Global:
-		name := "G." + c.Pkg.Pkg.Path() + "." + c.Name()
 		T := c.Type().(*types.Pointer).Elem()
-		x := Val{P: &Ptr{Kind: "global", Comp: name, T: T}}
+		x := Val{P: t.globalPtr(c.Pkg.Pkg.Path()+"."+c.Name(), T)}
+		x.S = x.P.Ref
 		t.vals[v] = x
 		return x
 	case *ssa.Function:
@@ -689,6 +714,20 @@ func (t *FnTrans) val(v ssa.Value) Val {
 	}
 	t.fail("value %s (%T) used before definition", v.Name(), v)
 	return Val{}
+}
+
+// globalPtr: package-level variables live in the ordinary heap at fixed small addresses, so
+// that their addresses can be stored and compared like any other pointer.
+func (t *FnTrans) globalPtr(full string, T types.Type) *Ptr {
+	a, ok := t.gaddr[full]
+	if !ok {
+		a = fmt.Sprint(len(t.gaddr) + 1)
+		t.gaddr[full] = a
+		if len(t.gaddr) > 900 {
+			t.fail("too many globals")
+		}
+	}
+	return t.ptrFromRef(a, T)
 }
 
 func (t *FnTrans) fnRef(f *ssa.Function) string {
